@@ -43,7 +43,7 @@ RULE = (
     "or closed-form override head with non-empty batch or reduce=False (value comparison not vacuous). Distinct by (class path, entry, path, rhs kind, flags, "
     "settings cell, batch shape, values)."
 )
-BUDGET = {"quick": 2500, "thorough": 4000}
+BUDGET = {"quick": 1500, "thorough": 4000}
 ASSUMPTIONS = [
     "inv_quad_logdet is only called with rhs batch == operator batch and a 1-D rhs only against non-batched operators "
     "(every implementation raises RuntimeError otherwise, explicitly)",
@@ -128,6 +128,20 @@ def _cat_pd(draw, dt):
     return {"op": "Cat", "args": args, "dim": draw(st.sampled_from([0, -3]))}
 
 
+KRON_HEADS = ("Kronecker", "KroneckerDiag", "KroneckerAddedDiag", "SumKronecker")
+
+
+@st.composite
+def _kron_head(draw, head, dt, ex):
+    """Kronecker-structured heads need a composite size (gen.recipes draws n in 1..6 and falls back to another class for
+    primes): draw n from {4, 6} and call the class's maker directly."""
+    cfg = gen.Cfg(dt=dt, exclude=ex)
+    batch = draw(st.sampled_from(gen.BATCHES))
+    n = draw(st.sampled_from([4, 6, 4]))
+    depth = draw(st.integers(2, 3))
+    return gen.call_maker(head, draw, cfg, "pd", n, n, batch, depth)
+
+
 @st.composite
 def _recipe(draw, tier, focus):
     if "batch_repeat_nested_below_head" not in _open_triggers():
@@ -149,12 +163,12 @@ def _recipe1(draw, tier, focus):
         # pivoted-Cholesky preconditioner), KroneckerAddedDiag's fall-back branch, and the delegating wrappers over them
         kind = draw(st.sampled_from(["generic", "generic", "added_diag", "added_diag", "kpad", "wrapper", "cat"]))
     elif focus == "closed":
-        kind = draw(st.sampled_from(["override", "override", "override", "kpad"]))
+        kind = draw(st.sampled_from(["override"] * 6 + ["kpad"]))
     else:
         kind = draw(st.sampled_from(["override", "generic", "any", "any", "added_diag"]))
     dt = draw(st.sampled_from(["f64", "f64", "f32"]))
     if kind == "override":
-        heads = [h for h in OVERRIDE_HEADS if h not in ex and ("has_" + h) not in trig]
+        heads = [h for h in OVERRIDE_HEADS + ["Kronecker", "Kronecker", "BatchRepeat", "Chol"] if h not in ex and ("has_" + h) not in trig]
         head = draw(st.sampled_from(heads))
         if head == "Cat":
             return draw(_cat_pd(dt))
@@ -163,6 +177,8 @@ def _recipe1(draw, tier, focus):
             # (KroneckerProductTriangularLinearOperator declines: "_symeig not applicable to triangular lazy tensors")
             hd = draw(st.sampled_from([h for h in ["TriT", "TriT", "TriBase"] if h not in ex]))
             return draw(gen.recipes(dom, max_depth=max_depth, head=hd, dts=(dt,), exclude=ex))
+        if head in KRON_HEADS:
+            return draw(_kron_head(head, dt, ex))
         batches = [b for b in gen.BATCHES if b] if head == "BatchRepeat" else None
         return draw(gen.recipes("pd", max_depth=max_depth, head=head, dts=(dt,), exclude=ex, batches=batches))
     if kind == "generic":
@@ -177,7 +193,7 @@ def _recipe1(draw, tier, focus):
     if kind == "added_diag":
         return draw(gen.recipes("pd", max_depth=2, head="AddedDiag", dts=(dt,), exclude=ex))
     if kind == "kpad" and "KroneckerAddedDiag" not in ex:
-        return draw(gen.recipes("pd", max_depth=3, head="KroneckerAddedDiag", dts=(dt,), exclude=ex))
+        return draw(_kron_head("KroneckerAddedDiag", dt, ex))
     return draw(gen.recipes("pd", max_depth=max_depth, dts=(dt,), exclude=ex))
 
 
@@ -233,7 +249,7 @@ def _settings_cell(draw, n, has_mul, focus, added_diag=False):
         cell["cg_tolerance"] = draw(st.sampled_from([1.0, 1e-2, 1e-12]))
     elif draw(st.integers(0, 2)) == 0:
         cell["cg_tolerance"] = 1e-2
-    if draw(st.integers(0, 5)) == 0:
+    if draw(st.sampled_from([False] * 7 + [True])):
         cell["skip_logdet_forward"] = True
     pre = draw(st.sampled_from(["on", "on", "on", "on", "off", "default"] if added_diag else ["default", "on", "on", "off"]))
     if pre == "on":
@@ -245,7 +261,7 @@ def _settings_cell(draw, n, has_mul, focus, added_diag=False):
     # deterministic_probes (deprecated) draws its probes through precond_lt.root_decomposition(): Lanczos above
     # max_cholesky_size, which fails on batches with members of different Krylov dimension (open C09 findings) - with an
     # active preconditioner it is therefore only generated while no C09 finding is open
-    if draw(st.integers(0, 11)) == 0 and not (pre == "on" and any(e.get("property") == "C09" for e in _open_entries())):
+    if draw(st.sampled_from([False] * 11 + [True])) and not (pre == "on" and any(e.get("property") == "C09" for e in _open_entries())):
         cell["deterministic_probes"] = True
     return cell
 
@@ -267,7 +283,7 @@ def cases(draw, tier):
     tri = r["op"] in ("Tri", "KroneckerTri")
     # every (entry, rhs kind, logdet flag) combination; those for which the trigger of an OPEN finding holds are removed
     options = [("logdet", None, True), ("torch.logdet", None, True)] * 2
-    for e in ("inv_quad", "fn.inv_quad"):
+    for e in ("inv_quad", "fn.inv_quad", "inv_quad", "fn.inv_quad"):
         if not tri:
             options += [(e, k, False) for k in _rhs_kinds(shape, e)]
     for e in ("inv_quad_logdet", "inv_quad_logdet", "fn.inv_quad_logdet"):
